@@ -372,6 +372,229 @@ theorem create_refused_iff (w : World ℝ) : (w.step .create).2 = false → (w.s
   simp only [World.step]
   split <;> simp
 
+/-! ## refinement: the System's meaning evolves like the plain value-level specification -/
+
+/-- the value-level specification of one System operation (what the operation means for a System whose objects are
+plain values) -/
+noncomputable def specStep (s : Sys ℝ) : SOp ℝ → Sys ℝ
+  | .setKT v => { s with kT := v }
+  | .setDom d => { s with dom := d }
+  | .setDens ts v => { s with dens := s.dens.set ts v }
+  | .setDiam ts v => { s with diam := s.diam.set ts v }
+  | .setPot i j P => { s with pot := setSym s.pot i j P }
+  | .setClo i j C => { s with clo := setSym s.clo i j C }
+  | .setOm i j O => { s with om := setSym s.om i j O }
+  | .editPotSigma i j v =>
+      match s.pot i j with
+      | none => s
+      | some P => { s with pot := setSym s.pot i j (some { P with sigma := v }) }
+  | .create => s
+
+/-- distinct unordered pairs of the System never share a potential object -/
+def PotInj (w : World ℝ) : Prop :=
+  ∀ a b c d r, w.sys.potR a b = some r → w.sys.potR c d = some r → (a = c ∧ b = d) ∨ (a = d ∧ b = c)
+
+theorem setSym_apply {β} (f : ℕ → ℕ → β) (i j : ℕ) (v : β) (a b : ℕ) :
+    setSym f i j v a b = if (a = i ∧ b = j) ∨ (a = j ∧ b = i) then v else f a b := rfl
+
+/-- … and the table is symmetric as a table of references -/
+def PotSymm (w : World ℝ) : Prop := ∀ a b, w.sys.potR a b = w.sys.potR b a
+
+theorem potSymm_init (n : ℕ) (kT : ℝ) : PotSymm (World.init n kT) := fun _ _ => rfl
+
+theorem potSymm_step (w : World ℝ) (hs : PotSymm w) (op : SOp ℝ) : PotSymm (w.step op).1 := by
+  cases op with
+  | setKT v => exact hs
+  | setDom d => exact hs
+  | setDens ts v => exact hs
+  | setDiam ts v => exact hs
+  | setOm i j O => exact hs
+  | setClo i j C =>
+    cases C with
+    | none => exact hs
+    | some C => obtain ⟨k, hc⟩ := C; exact hs
+  | editPotSigma i j v =>
+    simp only [World.step]
+    split
+    · exact hs
+    · split <;> exact hs
+  | create =>
+    simp only [World.step]
+    split <;> exact hs
+  | setPot i j P =>
+    intro a b
+    cases P with
+    | none =>
+      simp only [World.step, setSym_apply]
+      by_cases h : (a = i ∧ b = j) ∨ (a = j ∧ b = i)
+      · have h' : (b = i ∧ a = j) ∨ (b = j ∧ a = i) := by tauto
+        rw [if_pos h, if_pos h']
+      · have h' : ¬ ((b = i ∧ a = j) ∨ (b = j ∧ a = i)) := by tauto
+        rw [if_neg h, if_neg h']; exact hs a b
+    | some P =>
+      simp only [World.step, Store.allocPot, setSym_apply]
+      by_cases h : (a = i ∧ b = j) ∨ (a = j ∧ b = i)
+      · have h' : (b = i ∧ a = j) ∨ (b = j ∧ a = i) := by tauto
+        rw [if_pos h, if_pos h']
+      · have h' : ¬ ((b = i ∧ a = j) ∨ (b = j ∧ a = i)) := by tauto
+        rw [if_neg h, if_neg h']; exact hs a b
+
+theorem potInj_init (n : ℕ) (kT : ℝ) : PotInj (World.init n kT) := by
+  intro a b c d r h; simp [World.init, SysH.init] at h
+
+theorem potInj_step (w : World ℝ) (hw : WInv w) (hi : PotInj w) (op : SOp ℝ) : PotInj (w.step op).1 := by
+  cases op with
+  | setKT v => exact hi
+  | setDom d => exact hi
+  | setDens ts v => exact hi
+  | setDiam ts v => exact hi
+  | setOm i j O => exact hi
+  | setClo i j C =>
+    cases C with
+    | none => exact hi
+    | some C => obtain ⟨k, hc⟩ := C; exact hi
+  | editPotSigma i j v =>
+    simp only [World.step]
+    split
+    · exact hi
+    · split
+      · exact hi
+      · exact hi
+  | create =>
+    simp only [World.step]
+    split
+    · exact hi
+    · exact hi
+  | setPot i j P =>
+    cases P with
+    | none =>
+      intro a b c d r h1 h2
+      simp only [World.step, setSym_apply] at h1 h2
+      split at h1
+      · cases h1
+      · split at h2
+        · cases h2
+        · exact hi a b c d r h1 h2
+    | some P =>
+      intro a b c d r h1 h2
+      simp only [World.step, Store.allocPot, setSym_apply] at h1 h2
+      split at h1
+      · rename_i hab
+        cases h1
+        split at h2
+        · rename_i hcd
+          rcases hab with ⟨rfl, rfl⟩ | ⟨rfl, rfl⟩ <;> rcases hcd with ⟨rfl, rfl⟩ | ⟨rfl, rfl⟩ <;> simp
+        · have := hw.sysPot c d _ h2; omega
+      · split at h2
+        · cases h2; have := hw.sysPot a b _ h1; omega
+        · exact hi a b c d r h1 h2
+
+/-- **one operation on the object store means exactly the value-level operation** -/
+theorem step_abs (w : World ℝ) (hw : WInv w) (hi : PotInj w) (hs : PotSymm w) (op : SOp ℝ) :
+    absSys (w.step op).1.st (w.step op).1.sys = specStep (absSys w.st w.sys) op := by
+  cases op with
+  | setKT v => rfl
+  | setDom d => rfl
+  | setDens ts v => rfl
+  | setDiam ts v => rfl
+  | setOm i j O => rfl
+  | create => exact (create_does_not_write_system w hw).2
+  | setPot i j P =>
+    cases P with
+    | none =>
+      simp only [World.step, specStep, absSys]
+      congr 1
+      funext a b
+      simp only [setSym_apply]
+      split <;> rfl
+    | some P =>
+      simp only [World.step, Store.allocPot, specStep, absSys]
+      congr 1
+      · funext a b
+        simp only [setSym_apply]
+        split
+        · simp [upd]
+        · cases h : w.sys.potR a b with
+          | none => rfl
+          | some r =>
+            have := hw.sysPot a b r h
+            have hne : r ≠ w.st.next := by omega
+            simp [Option.bind, upd, hne]
+  | setClo i j C =>
+    cases C with
+    | none =>
+      simp only [World.step, specStep, absSys]
+      congr 1
+      funext a b
+      simp only [setSym_apply]
+      split <;> rfl
+    | some C =>
+      obtain ⟨k, hc⟩ := C
+      simp only [World.step, Store.allocClo, specStep, absSys]
+      congr 1
+      funext a b
+      simp only [setSym_apply]
+      split
+      · simp [upd]
+      · cases h : w.sys.cloR a b with
+        | none => rfl
+        | some r =>
+          have := hw.sysClo a b r h
+          have hne : r ≠ w.st.next := by omega
+          simp [Option.bind, upd, hne]
+  | editPotSigma i j v =>
+    simp only [World.step, specStep]
+    cases hr : w.sys.potR i j with
+    | none => simp [absSys, hr]
+    | some r =>
+      simp only
+      cases hP : w.st.pot r with
+      | none => simp [absSys, hr, hP, Option.bind]
+      | some P =>
+        have habs : (absSys w.st w.sys).pot i j = some P := by simp [absSys, hr, hP, Option.bind]
+        simp only [habs]
+        simp only [absSys]
+        congr 1
+        funext a b
+        simp only [setSym_apply]
+        split
+        · rename_i hab
+          have : w.sys.potR a b = some r := by
+            rcases hab with ⟨rfl, rfl⟩ | ⟨rfl, rfl⟩
+            · exact hr
+            · rw [hs a b]; exact hr
+          simp [this, Option.bind, upd]
+        · rename_i hab
+          cases h : w.sys.potR a b with
+          | none => rfl
+          | some r' =>
+            have hne : r' ≠ r := by
+              intro e; subst e
+              rcases hi a b i j r' h hr with ⟨rfl, rfl⟩ | ⟨rfl, rfl⟩
+              · exact hab (Or.inl ⟨rfl, rfl⟩)
+              · exact hab (Or.inr ⟨rfl, rfl⟩)
+            simp [Option.bind, upd, hne]
+
+/-- **sweeps**: for EVERY operation history on one System object, the System's meaning is the value-level specification
+run on the same history (`create` is the identity there), so by `sweep_equals_fresh` the PRISM object created at any point
+is `createPRISM` of a System that was simply *built* with the current parameters -/
+theorem history_refines_spec (n : ℕ) (kT : ℝ) (ops : List (SOp ℝ)) :
+    absSys ((World.init n kT).run ops).st ((World.init n kT).run ops).sys = ops.foldl specStep (Sys.init n kT) := by
+  have key : ∀ (ops : List (SOp ℝ)) (w : World ℝ), WInv w → PotInj w → PotSymm w →
+      absSys (w.run ops).st (w.run ops).sys = ops.foldl specStep (absSys w.st w.sys) := by
+    intro ops
+    induction ops with
+    | nil => intro w _ _ _; rfl
+    | cons op ops ih =>
+      intro w hw hi hs
+      simp only [World.run, List.foldl_cons]
+      have := ih (w.step op).1 (step_isolated w hw op).1 (potInj_step w hw hi op) (potSymm_step w hs op)
+      simp only [World.run] at this
+      rw [this, step_abs w hw hi hs op]
+  have h0 : absSys (World.init n kT : World ℝ).st (World.init n kT : World ℝ).sys = Sys.init n kT := by
+    simp [absSys, World.init, SysH.init, Sys.init, Store.empty]
+  rw [key ops _ (winv_init n kT) (potInj_init n kT) (potSymm_init n kT), h0]
+
 /-- negation witness for the aliased variant (iterating the caller's `sys.potential` in `PRISM.__init__`):
 it changes the System's own potential object -/
 theorem aliased_create_changes_system :
